@@ -212,6 +212,17 @@ func init() {
 		it.envSym[argStr(args[0])] = args[1].(Str)
 		return nil
 	})
+	reg(rtPkg+"Tag", func(fr *frame, args []Value) Value {
+		p := fr.it.path
+		t := argStr(args[0])
+		for _, x := range p.tags {
+			if x == t {
+				return nil
+			}
+		}
+		p.tags = append(p.tags, t)
+		return nil
+	})
 	reg(rtPkg+"Fail", func(fr *frame, args []Value) Value {
 		fr.it.assertProp(fr.it.tt.fls, argStr(args[0]))
 		return nil
